@@ -129,7 +129,15 @@ impl Head {
             .match_slices(line)
             .ok_or(HeadError::MalformedHeader)?;
         let name_string = String::from_utf8(name_bytes.to_vec()).unwrap();
-        let value_string = Self::latin1_bytes_to_utf8(trim_whitespace(value_bytes));
+        let value_bytes = trim_whitespace(value_bytes);
+        // field-value allows only VCHAR, SP, and HTAB.  Reject control characters.
+        if !value_bytes
+            .iter()
+            .all(|&b| b == b'\t' || (b' '..=b'~').contains(&b))
+        {
+            return Err(HeadError::MalformedHeader);
+        }
+        let value_string = Self::latin1_bytes_to_utf8(value_bytes);
         let name = AsciiString::try_from(name_string).unwrap();
         let value = AsciiString::try_from(value_string).map_err(|_| HeadError::MalformedHeader)?;
         Ok(Header::new(name, value))
